@@ -414,6 +414,55 @@ func scenAdmission(rep *Report, tier string, seed int64) {
 				shape += "-peg"
 			}
 		}
+		overdraft := false
+		if i%5 == 1 {
+			// directed shape: a transfer with a change output back to the input address, then
+			// spends that rely on the change — at, just below and above what is really left
+			t := assets[r.Intn(len(assets))]
+			x := uint64(100 + r.Intn(1000))
+			bals = map[fat2.PTicker]uint64{t: x}
+			var b1, b2 factom.FAAddress
+			r.Read(b1[:])
+			r.Read(b2[:])
+			first := x - uint64(r.Intn(int(x/2)))
+			change := uint64(1 + r.Intn(int(first-1)))
+			left := x - first + change
+			var second uint64
+			switch r.Intn(5) {
+			case 0:
+				second = left
+			case 1:
+				second = left + 1
+			case 2:
+				second = left - 1
+			case 3:
+				second = left + 1 + uint64(r.Intn(int(first-change))) // up to the full balance
+			default:
+				second = uint64(1 + r.Intn(int(x)))
+			}
+			if second == 0 {
+				second = 1
+			}
+			outs := []fat2.AddressAmountTuple{{Address: b1, Amount: first - change}, {Address: in, Amount: change}}
+			if r.Intn(2) == 0 {
+				outs[0], outs[1] = outs[1], outs[0]
+			}
+			txs = []fat2.Transaction{Transfer(in, t, outs...), Transfer(in, t, fat2.AddressAmountTuple{Address: b2, Amount: second})}
+			overdraft = second > left
+			if r.Intn(3) == 0 && second <= left {
+				// a third spend of what the first two leave
+				third := left - second + uint64(r.Intn(2))
+				if third > 0 {
+					txs = append(txs, Transfer(in, t, fat2.AddressAmountTuple{Address: b1, Amount: third}))
+					overdraft = third > left-second
+				}
+			}
+			hasConv = false
+			shape = "TT-change"
+			if overdraft {
+				shape += "-overdraft"
+			}
+		}
 		nilRates := !hasConv
 		impl, e := d.applyDirect(h, bals, txs, rates, avgs, nilRates, nil)
 		nr := 0
@@ -440,6 +489,17 @@ func scenAdmission(rep *Report, tier string, seed int64) {
 		}
 		if strings.Contains(impl, "=-") {
 			rep.Violate("batch:negative", impl, "")
+		}
+		// C03: "no batch can spend more of an asset than its input address holds … even when the
+		// batch … credit[s] it mid-batch": the change-output shapes whose spends exceed what is
+		// left must be refused as a whole, the others applied
+		if strings.HasPrefix(shape, "TT-change") {
+			rep.Count("batch:change-output:overdraft=" + fmt.Sprint(overdraft))
+			if overdraft != strings.HasPrefix(impl, "ok reject") {
+				path := WriteReplay(rep.Property, "admission-change", Replay{Property: rep.Property, Scenario: "admission", Seed: seed, Setup: s,
+					What: "batch with a change output: verdict differs from the cumulative funds rule", Extra: map[string]interface{}{"line": line, "impl": impl, "height": h, "balances_before": balLine(bals), "overdraft": overdraft}})
+				rep.Violate("batch:change-output-funds", fmt.Sprintf("overdraft=%v but %q from %s", overdraft, impl, balLine(bals)), path)
+			}
 		}
 	}
 	rep.Traces = total
